@@ -180,3 +180,155 @@ pub fn digests(family: Family, base_seed: u64, n: u64, threads: usize, reverse: 
     }
     Arc::try_unwrap(out).unwrap().into_inner().unwrap()
 }
+
+
+// ---------------------------------------------------------------------------------------------
+// Long batches run in child processes: every run uses a fresh thread, and the libraries under test
+// keep per-thread pools that are leaked by design (about 100 KB per run), so one process must not
+// execute millions of runs. A chunk is a pure function of (family, base seed, start, count); the
+// union of the chunks is the batch.
+
+pub const CHUNK: u64 = 50_000;
+
+fn static_prop(p: &str) -> &'static str {
+    const ALL: [&str; 21] = [
+        "C01", "C02", "C03", "C04", "C05", "C06", "C07", "C08", "C09", "C10", "C11", "C12", "C13", "C14", "C15", "C16", "C17", "C18", "C19", "C20", "HARNESS",
+    ];
+    ALL.iter().copied().find(|x| *x == p).unwrap_or("HARNESS")
+}
+
+pub fn to_json(o: &BatchOut) -> serde_json::Value {
+    use serde_json::json;
+    let found: Vec<serde_json::Value> = o
+        .found
+        .iter()
+        .map(|(k, f)| {
+            json!({
+                "key": k,
+                "count": f.count,
+                "first_idx": f.first_idx,
+                "first_seed": f.first_seed.to_string(),
+                "prop": f.example.as_ref().map(|e| e.prop),
+                "msg": f.example.as_ref().map(|e| e.msg.clone()),
+                "at_seq": f.example.as_ref().map(|e| e.at_seq),
+                "choices": f.choices,
+                "family": f.family.map(|x| x.name()),
+            })
+        })
+        .collect();
+    json!({
+        "evaluations": o.evaluations,
+        "found": found,
+        "signatures": o.signatures.iter().map(|s| s.to_string()).collect::<Vec<_>>(),
+        "nontrivial": o.nontrivial.iter().map(|s| s.to_string()).collect::<Vec<_>>(),
+        "faults": o.faults,
+        "probes": o.probes,
+        "by_role": o.by_role,
+        "sim_ms": o.sim_ms,
+        "steps": o.steps,
+        "task_polls": o.task_polls,
+        "wall_s": o.wall_s,
+        "samples": o.samples,
+    })
+}
+
+pub fn from_json(v: &serde_json::Value) -> Option<BatchOut> {
+    let mut o = BatchOut { evaluations: v["evaluations"].as_u64()?, ..Default::default() };
+    for f in v["found"].as_array()? {
+        let key = f["key"].as_str()?.to_string();
+        let prop = static_prop(f["prop"].as_str().unwrap_or("HARNESS"));
+        let example = f["msg"].as_str().map(|m| Violation { prop, key: key.clone(), msg: m.to_string(), at_seq: f["at_seq"].as_u64().unwrap_or(0) });
+        o.found.insert(
+            key,
+            Found {
+                count: f["count"].as_u64()?,
+                first_idx: f["first_idx"].as_u64()?,
+                first_seed: f["first_seed"].as_str()?.parse().ok()?,
+                example,
+                choices: f["choices"].as_array()?.iter().filter_map(|c| c.as_u64().map(|x| x as u32)).collect(),
+                family: f["family"].as_str().and_then(Family::parse),
+            },
+        );
+    }
+    for s in v["signatures"].as_array()? {
+        o.signatures.insert(s.as_str()?.parse().ok()?);
+    }
+    for s in v["nontrivial"].as_array()? {
+        o.nontrivial.insert(s.as_str()?.parse().ok()?);
+    }
+    for (name, dst) in [("faults", &mut o.faults), ("probes", &mut o.probes), ("by_role", &mut o.by_role)] {
+        for (k, n) in v[name].as_object()? {
+            dst.insert(k.clone(), n.as_u64()?);
+        }
+    }
+    o.sim_ms = v["sim_ms"].as_u64()?;
+    o.steps = v["steps"].as_u64()?;
+    o.task_polls = v["task_polls"].as_u64()?;
+    o.wall_s = v["wall_s"].as_f64().unwrap_or(0.0);
+    o.samples = v["samples"].as_array()?.iter().filter_map(|s| s.as_str().map(str::to_string)).collect();
+    Some(o)
+}
+
+pub fn merge(into: &mut BatchOut, o: BatchOut) {
+    into.evaluations += o.evaluations;
+    into.signatures.extend(o.signatures);
+    into.nontrivial.extend(o.nontrivial);
+    for (k, n) in o.faults {
+        *into.faults.entry(k).or_insert(0) += n;
+    }
+    for (k, n) in o.probes {
+        *into.probes.entry(k).or_insert(0) += n;
+    }
+    for (k, n) in o.by_role {
+        *into.by_role.entry(k).or_insert(0) += n;
+    }
+    into.sim_ms += o.sim_ms;
+    into.steps += o.steps;
+    into.task_polls += o.task_polls;
+    for s in o.samples {
+        if into.samples.len() < 3 {
+            into.samples.push(s);
+        }
+    }
+    for (k, f) in o.found {
+        let e = into.found.entry(k).or_default();
+        let had = e.example.is_some();
+        e.count += f.count;
+        if !had || f.first_idx < e.first_idx {
+            e.first_idx = f.first_idx;
+            e.first_seed = f.first_seed;
+            e.example = f.example;
+            e.choices = f.choices;
+            e.family = f.family;
+        }
+    }
+}
+
+/// Run a batch of any size: in-process up to one chunk, otherwise chunk by chunk in child processes
+/// (`dst batchjson <prop> <family> <seed> <start> <count>`). Returns Err on a harness problem.
+pub fn run_batch_auto(prop: &str, family: Family, base_seed: u64, runs: u64, threads: usize, wall_limit_s: f64, nontrivial: Probe) -> Result<BatchOut, String> {
+    if runs <= CHUNK {
+        return Ok(run_batch(family, base_seed, 0, runs, threads, wall_limit_s, nontrivial));
+    }
+    let exe = std::env::current_exe().map_err(|e| format!("current_exe: {e}"))?;
+    let t0 = Instant::now();
+    let mut all = BatchOut::default();
+    let mut start = 0u64;
+    while start < runs && t0.elapsed().as_secs_f64() < wall_limit_s {
+        let n = CHUNK.min(runs - start);
+        let out = std::process::Command::new(&exe)
+            .args(["batchjson", prop, family.name(), &base_seed.to_string(), &start.to_string(), &n.to_string()])
+            .env("DST_THREADS", threads.to_string())
+            .output()
+            .map_err(|e| format!("spawn chunk: {e}"))?;
+        if !out.status.success() {
+            return Err(format!("chunk {start}+{n} of {} exited with {:?}: {}", family.name(), out.status.code(), String::from_utf8_lossy(&out.stderr).lines().last().unwrap_or("")));
+        }
+        let v: serde_json::Value = serde_json::from_slice(&out.stdout).map_err(|e| format!("chunk output: {e}"))?;
+        let o = from_json(&v).ok_or("chunk output: unexpected shape")?;
+        merge(&mut all, o);
+        start += n;
+    }
+    all.wall_s = t0.elapsed().as_secs_f64();
+    Ok(all)
+}
